@@ -479,9 +479,13 @@ pub fn matmul(
 
 /// Create a design matrix from a given matrix.
 pub fn design(x: &[f64], rows: usize) -> Vec<f64> {
-    let mut ones = vec![1.; rows];
-    ones.extend_from_slice(x);
-    col_to_row_major(&ones, rows)
+    let ncols = is_matrix(x, rows).unwrap();
+    let mut d = Vec::with_capacity(rows * (ncols + 1));
+    for i in 0..rows {
+        d.push(1.);
+        d.extend_from_slice(&x[i * ncols..(i + 1) * ncols]);
+    }
+    d
 }
 
 /// Given some length m data x, create an nth order
